@@ -122,6 +122,16 @@ def check(spec, ctx):
             ctx.fail(f"{spec['ctype']}: recording {u} missing from the document", spec, sorted(stored), u, kind="missing")
         elif PurePosixPath(stored[u]) != rel or stored[u].startswith("/"):
             ctx.fail(f"{spec['ctype']}: stored path {stored[u]!r} is not the path relative to the audio directory {str(rel)!r}", spec, stored[u], str(rel), kind="stored_path")
+    # the same collection saved again under the PARENT directory (whole archive instead of one site) and then under A again:
+    # every save is relative to the directory it was given, whatever was saved before in this process
+    for adir in (A.parent, A):
+        ctx.call(spec, f"io.save(audio_dir={'A.parent' if adir != A else 'A again'})", io.save, obj, doc, audio_dir=arg(adir))
+        with open(doc) as fh:
+            st2 = {r["uuid"]: r["path"] for r in json.load(fh)["data"].get("recordings") or []}
+        for r in graphs.walk(obj)["recording_objects"]:
+            want2 = PurePosixPath(*Path(r.path).relative_to(adir).parts)
+            if PurePosixPath(st2.get(str(r.uuid), "")) != want2:
+                ctx.fail(f"{spec['ctype']}: saved under {str(adir)!r} after an earlier save under another directory: stored path {st2.get(str(r.uuid))!r}, expected {str(want2)!r}", spec, st2.get(str(r.uuid)), str(want2), kind="stored_path_sequence")
     loaded = ctx.call(spec, "io.load(audio_dir=B)", io.load, doc, audio_dir=arg(B))
     got = {str(r.uuid): Path(r.path) for r in graphs.walk(loaded)["recording_objects"]}
     want = {u: B.joinpath(*rel.parts) for u, rel in want_rel.items()}
